@@ -202,7 +202,25 @@ def r3(ctx, F):
                         if x.kind == 'call' and x.key == 'std::time::Duration::from_secs':
                             so = call_arg_origins(sfl, x.bb, 0)
                             # derives from the `secs` parameter through max(0)/try_from/unwrap_or only
-                            secs = any(y.kind == 'param' and y.key == 2 for y in so) or any(y.kind == 'comb' for y in so)
+                            # derives from the `secs` parameter through clamps / conversions only (max(0), try_from, unsigned_abs,
+                            # unwrap_or(0)): no arithmetic that would change the unit
+                            CONV = ('unsigned_abs', 'max', 'try_from', 'try_into', 'from', 'into', 'unwrap_or', 'unwrap_or_default', 'abs')
+
+                            def through(os_, depth=0):
+                                ok_, seen_p = True, False
+                                for y in os_:
+                                    if y.kind == 'param' and y.key == 2:
+                                        seen_p = True
+                                    elif y.kind in ('comb', 'const'):
+                                        continue
+                                    elif y.kind == 'call' and str(y.key).split('::')[-1] in CONV and depth < 5:
+                                        o2, p2 = through(call_arg_origins(sfl, y.bb, 0), depth + 1)
+                                        ok_, seen_p = ok_ and o2, seen_p or p2
+                                    else:
+                                        ok_ = False
+                                return ok_, seen_p
+                            okc, seenp = through(so)
+                            secs = okc and (seenp or any(y.kind == 'comb' for y in so))
                             secs = secs and not any(y.kind == 'op' for y in so)
                 ok = epoch and secs
     ctx.check(ok, 'C14.R3', 'set_local_mtime', 'set_modified(UNIX_EPOCH + Duration::from_secs(secs))', 'set_local_mtime does not interpret its argument as whole epoch seconds', loc(s, s.lo))
@@ -214,6 +232,25 @@ def r3(ctx, F):
     for nb, nt in pfl.calls_to('std::iter::Iterator::next'):
         if dot and any(o.kind == 'call' and o.bb == dot[0][0] for o in pfl.origins(nt['args'][0])):
             first = True
+    if not dot:
+        # the same cut written with split_once('.'): the text before the dot is field .0 of its payload (whole text when there is no dot)
+        so_ = [(sb, st) for sb, st in pfl.calls(lambda c: c.endswith('::split_once')) if any(o.kind == 'const' and o.key == ord('.') for o in pfl.origins(st['args'][1]))]
+        for pb_, pt_ in pfl.calls(lambda c: c.endswith('::parse') and 'i64' in (pfl.body.blocks[0] and '' or '') or c.endswith('::parse')):
+            if 'i64' not in (pt_['func'].get('fn_args') or ''):
+                continue
+            io = [o for o in pfl.origins(pt_['args'][0]) if o.kind != 'comb']
+            direct0 = any(o.kind == 'call' and o.bb == so_[0][0] and tuple(o.path)[-1:] == ('0',) for o in io) if so_ else False
+            direct1 = any(o.kind == 'call' and o.bb == so_[0][0] and tuple(o.path)[-1:] == ('1',) for o in io) if so_ else False
+            # `.map_or(whole, |(secs, _)| secs)`: the closure hands back the first half of the pair
+            via_closure = False
+            for o in io:
+                cb_ = F.body(o.key) if o.kind == 'agg' else None
+                if cb_ is not None:
+                    ro = [x for x in flow_of(cb_).origins(0) if x.kind != 'comb']
+                    via_closure = bool(ro) and all(x.kind == 'param' and tuple(x.path)[-1:] == ('0',) for x in ro)
+            uses_split = so_ and any(o.kind == 'call' and o.bb == so_[0][0] for o in io)
+            if uses_split and (direct0 or via_closure) and not direct1:
+                dot, first = so_, True
     ctx.check(bool(dot) and first, 'C14.R3', 'remote-reader', 'mtime = integer part of %T@ (text before the first dot)',
               'the remote listing parser does not truncate %T@ to whole seconds', loc(p, p.lo))
     # remote writer listing uses %T@ (seconds since epoch)
